@@ -28,7 +28,9 @@ Step ==
   /\ l' = l + 1
   /\ LET t == Trace[l] IN
      CASE t.ev = "new" ->
-            /\ kinds' = <<t.kind>> /\ bags' = << {} >> /\ viol' = viol
+            LET its == IF "items" \in DOMAIN t THEN t.items ELSE <<>>
+                B == << {<<its[i][1], its[i][2]>> : i \in 1..Len(its)} >>
+            IN /\ kinds' = <<t.kind>> /\ bags' = B /\ viol' = viol \cup ContentViol(t, B, 1)
        [] t.ev = "push" ->
             LET B == [bags EXCEPT ![t.q] = @ \cup {<<t.p, t.t>>}]
             IN /\ bags' = B /\ kinds' = kinds
